@@ -640,7 +640,7 @@ def run(tier: str, seed: int, replay=None) -> int:
                 "(one without, one with None) an exhaustive sweep of every single comparison chain-op-literal / chain-op-chain, IN lists and "
                 "the(==) of every variable type (thorough: all literals, and every and_/or_ of two comparisons). "
                 "In every world a fixed connection with two, one with one and one with no prismatic partner, and all equality joins fixed.x == prismatic.y "
-                "(both orders, alone and next to a comparison isolating one entity) as an(...) and the(...). Rows compared as bags. "
+                "(both orders, alone and next to a comparison isolating one entity) as an(...) and the(...), plus two joins onto one table and joins below or_. Rows compared as bags (as sets when an equality join stands below an or_); F07 / F07J membership is decided in Coq per case. "
                 "distinct = distinct (query, world); non-trivial = result neither empty nor the whole domain, or a the()/error outcome")
     ok_spec, log = core.coq_make(["Base/Sx.vo", "Orm/EqlToSqlSpec.vo"])
     rep.oblige("build:spec", ok_spec, "" if ok_spec else core.first_error(log))
